@@ -364,10 +364,17 @@ struct Faulty {
     sh: Rc<Shared>,
     epoch: u64,
     calls: u32,
+    /// a socket-like transport: every other flush needs one extra poll (Pending with an immediate
+    /// wake-up) before it completes, so that a wrapper that reports a flush as done too early
+    /// (Buffered) leaves the last message unwritten
+    flushes: u32,
+    stalled: bool,
+    /// messages handed over with send_start stay here until a flush writes them (a write buffer)
+    wbuf: Vec<Message>,
 }
 impl Faulty {
     fn new(inner: Unbounded, sh: Rc<Shared>) -> Self {
-        Faulty { inner: Some(inner), sh, epoch: 0, calls: 0 }
+        Faulty { inner: Some(inner), sh, epoch: 0, calls: 0, flushes: 0, stalled: false, wbuf: Vec::new() }
     }
     /// see EPOCH
     fn spin_guard(&mut self) {
@@ -439,24 +446,35 @@ impl AsyncTransport for Faulty {
             return Err(self.sh.err("flusherr", e));
         }
         let t = fmt_msg(&msg, &mut self.sh.ids.borrow_mut());
-        match Pin::new(self.inner.as_mut().unwrap()).send_start(msg) {
-            Ok(()) => {
-                self.sh.line(format!("send {t}"));
-                Ok(())
-            }
-            Err(_) => {
-                self.sh.failed.set(Some(FErr::Peer));
-                Err(self.sh.err("flusherr", FErr::Peer))
-            }
-        }
+        self.sh.line(format!("send {t}"));
+        self.wbuf.push(msg);
+        Ok(())
     }
     fn send_poll_flush(mut self: Pin<&mut Self>, cx: &mut Context) -> Poll<Result<(), FErr>> {
         if let Some(e) = self.sh.failed.get() {
             return Poll::Ready(Err(self.sh.err("flusherr", e)));
         }
+        if !self.stalled && self.flushes % 2 == 1 {
+            // not yet: ask to be polled again
+            self.stalled = true;
+            cx.waker().wake_by_ref();
+            return Poll::Pending;
+        }
+        // write the buffered messages out
+        let pending = std::mem::take(&mut self.wbuf);
+        for m in pending {
+            let inner = self.inner.as_mut().unwrap();
+            let ok = matches!(Pin::new(&mut *inner).send_poll_ready(cx), Poll::Ready(Ok(()))) && Pin::new(&mut *inner).send_start(m).is_ok();
+            if !ok {
+                self.sh.failed.set(Some(FErr::Peer));
+                return Poll::Ready(Err(self.sh.err("flusherr", FErr::Peer)));
+            }
+        }
         match Pin::new(self.inner.as_mut().unwrap()).send_poll_flush(cx) {
             Poll::Pending => Poll::Pending,
             Poll::Ready(Ok(())) => {
+                self.stalled = false;
+                self.flushes += 1;
                 if self.sh.tick(2) {
                     let e = self.fail_now();
                     return Poll::Ready(Err(self.sh.err("flusherr", e)));
